@@ -37,7 +37,7 @@ def target_kinds_for(cls):
 
 
 @st.composite
-def fitted_case(draw, classes, max_features=3, dev_modes=None, quant_pools=None, allow_missing=True, min_features=1):
+def fitted_case(draw, classes, max_features=3, dev_modes=None, quant_pools=None, allow_missing=True, min_features=1, cat_flavours=None):
     """A sample plus the specification of the object to fit on it."""
     cls = draw(st.sampled_from(list(classes)))
     is_carver = cls in CARVERS
@@ -52,6 +52,7 @@ def fitted_case(draw, classes, max_features=3, dev_modes=None, quant_pools=None,
             dev_modes=dev_modes,
             quant_pools=quant_pools,
             allow_missing=allow_missing,
+            cat_flavours=cat_flavours,
         )
     )
     if cls == "ChainedDiscretizer":
@@ -71,7 +72,7 @@ def fitted_case(draw, classes, max_features=3, dev_modes=None, quant_pools=None,
     if cls in ("CategoricalDiscretizer",):
         # documented for string columns only
         for f in case["features"]:
-            if f.get("flavour") in ("ints", "floats", "mixed"):
+            if f.get("flavour") in ("ints", "floats", "mixed", "flags", "bools"):
                 f["values"] = [f"v{n}" for n, _ in enumerate(f["values"])]
                 f["flavour"] = "str"
     if is_carver:
